@@ -124,11 +124,19 @@ impl Clone for K {
         K::new(self.class, self.id)
     }
 }
+/// The key object (by id) whose destructor panics, once, the next time it runs (0: none). Armed
+/// only around the drop of a drain_filter iterator: the one place where griddle has code for
+/// a panicking element destructor (the ConsumeAllOnDrop guard).
+pub static BOMB: std::sync::atomic::AtomicU64 = std::sync::atomic::AtomicU64::new(0);
 impl Drop for K {
     fn drop(&mut self) {
         died(self.serial, "key", self.id);
         if ARMED.load(SeqCst) {
             DK.with(|d| d.borrow_mut().push(self.id));
+        }
+        if self.id != 0 && BOMB.load(SeqCst) == self.id {
+            BOMB.store(0, SeqCst);
+            std::panic::panic_any(FusePanic);
         }
     }
 }
